@@ -408,6 +408,35 @@ func (g *srvGen) opClock() {
 	g.s.SetNow(uint32(c))
 }
 
+// opBadHTTP: every endpoint with a method, query or body it has to refuse.
+func (g *srvGen) opBadHTTP() {
+	r := g.r
+	paths := []string{"/api/v1/all-device-stats", "/api/v1/authorized-servers", "/api/v1/authorize-equipment", "/api/v1/equipment",
+		"/api/v1/equipment-migrate", "/api/v1/register-gca", "/api/v1/recent-reports", "/api/v1/geo-stats", "/api/v1/archive", "/api/v1/nothing", "/"}
+	p := paths[r.Intn(len(paths))]
+	bodies := [][]byte{nil, []byte("{}"), []byte("null"), []byte("[]"), []byte("\"x\""), []byte("123"), []byte("{\"ShortID\":"), []byte("{\"ShortID\":\"one\"}"),
+		[]byte("{\"PublicKey\":[1,2,3]}"), []byte("{\"Location\":\"" + strings.Repeat("x", 300) + "\"}"), []byte("{\"Equipment\":7}"), []byte("{\"NewServers\":[{}]}"),
+		r.Bytes(1 + r.Intn(60))}
+	switch r.Intn(3) {
+	case 0: // a method the endpoint does not serve
+		m := []string{"PUT", "DELETE", "PATCH", "HEAD", "OPTIONS"}[r.Intn(5)]
+		g.s.HTTP(m, p, bodies[r.Intn(len(bodies))])
+	case 1: // POST with a body that is no valid order
+		post := []string{"/api/v1/authorized-servers", "/api/v1/authorize-equipment", "/api/v1/equipment-migrate", "/api/v1/register-gca"}
+		g.s.HTTP("POST", post[r.Intn(len(post))], bodies[r.Intn(len(bodies))])
+	default: // GET with a query the endpoint has to refuse
+		qs := []string{"/api/v1/all-device-stats", "/api/v1/all-device-stats?timeslot_offset=", "/api/v1/all-device-stats?timeslot_offset=abc",
+			"/api/v1/all-device-stats?timeslot_offset=-2016", "/api/v1/all-device-stats?timeslot_offset=99999999999999999999999",
+			"/api/v1/all-device-stats?timeslot_offset=2016.5", "/api/v1/all-device-stats?timeslot_offset=0x7e0", "/api/v1/all-device-stats?timeslot_offset=%zz",
+			"/api/v1/all-device-stats?timeslot_offset=1", "/api/v1/all-device-stats?timeslot_offset=18446744073709551615",
+			"/api/v1/recent-reports", "/api/v1/recent-reports?publicKey=", "/api/v1/recent-reports?publicKey=zz", "/api/v1/recent-reports?publicKey=abc",
+			"/api/v1/recent-reports?publicKey=" + strings.Repeat("ab", 31), "/api/v1/recent-reports?publicKey=" + strings.Repeat("ab", 33),
+			"/api/v1/recent-reports?publicKey=" + strings.Repeat("00", 32),
+			"/api/v1/geo-stats", "/api/v1/geo-stats?latitude=x&longitude=1", "/api/v1/geo-stats?latitude=1", "/api/v1/nothing?x=1"}
+		g.s.HTTP("GET", qs[r.Intn(len(qs))], nil)
+	}
+}
+
 func (g *srvGen) opStats() {
 	r := g.r
 	off := uint64(g.off())
@@ -492,6 +521,13 @@ func (g *srvGen) opRegister() {
 	key := cand.Pub
 	if r.Chance(8) {
 		key[r.Intn(32)] ^= 1 // altered key, signature over the original
+	}
+	if !g.regDone && (g.focus == "C07" || g.focus == "C05" || g.focus == "C17") && r.Chance(25) {
+		// the same order first with the key file unwritable: refused, and nothing of it may stay behind
+		g.s.RegisterFault(key, sig)
+		if r.Chance(50) {
+			g.opAuthServer() // an order signed by whoever just failed to register must not be honoured
+		}
 	}
 	if g.s.Register(key, sig) == "ok" {
 		g.regDone = true
@@ -849,12 +885,33 @@ func runSrvScenario(focus string, seed uint64, size int, t *Trace) error {
 				return nil
 			}
 		case 5:
-			g.opStats()
+			switch {
+			case r.Chance(15):
+				s.Equipment()
+			case r.Chance(30):
+				g.opBadHTTP()
+			case r.Chance(25):
+				key := g.keys[r.Intn(len(g.keys))].Pub
+				if len(g.authsSeen) > 0 && r.Chance(75) {
+					key = g.authsSeen[r.Intn(len(g.authsSeen))].PublicKey
+				}
+				s.Recent(key)
+			default:
+				g.opStats()
+			}
 		case 6:
-			id := uint32(1 + r.Intn(7))
-			s.Sync(id)
+			if r.Chance(12) {
+				s.TCPShort(r.Bytes(r.Intn(4)))
+			} else {
+				id := uint32(1 + r.Intn(7))
+				s.Sync(id)
+			}
 		case 7:
-			g.opAuthServer()
+			if r.Chance(25) {
+				s.Servers()
+			} else {
+				g.opAuthServer()
+			}
 		case 8:
 			g.opMigrate()
 		case 9:
@@ -926,7 +983,7 @@ func runMany(child []string, base uint64, n int, par int, size int, out *os.File
 		var keep []string
 		var panicLine string
 		for _, l := range lines {
-			if strings.HasPrefix(l, "panic:") || strings.HasPrefix(l, "fatal error:") {
+			if strings.HasPrefix(l, "panic:") || strings.HasPrefix(l, "fatal error:") || strings.HasPrefix(l, "WARNING: DATA RACE") {
 				panicLine = l
 			}
 			if strings.HasPrefix(l, "scenario ") || strings.HasPrefix(l, "srv.") || strings.HasPrefix(l, "v ") || strings.HasPrefix(l, "# ") ||
